@@ -2,6 +2,8 @@ package main
 
 import (
 	"bytes"
+	"net"
+	"net/netip"
 	"fmt"
 	"go/ast"
 	"go/constant"
@@ -1606,6 +1608,33 @@ func provisionModels(inner func(string, []SV, *symEval, *symState) (SV, bool)) f
 			return symRef("logger", false), true
 		case callee == "fmt.Errorf" || callee == "errors.New":
 			return SV{K: "ref", Known: true, Desc: "err:" + callee}, true
+		case callee == "net.ParseCIDR" && len(args) == 1 && args[0].K == "str" && args[0].Known:
+			if _, _, err := net.ParseCIDR(args[0].S); err != nil {
+				return symTuple(symNil(), symNil(), SV{K: "ref", Known: true, Desc: "errParseCIDR(" + args[0].S + ")"}), true
+			}
+			return symTuple(symRef("ip("+args[0].S+")", false), symRef("ipnet("+args[0].S+")", false), symNil()), true
+		case callee == "net/netip.ParsePrefix" && len(args) == 1 && args[0].K == "str" && args[0].Known:
+			if _, err := netip.ParsePrefix(args[0].S); err != nil {
+				return symTuple(SV{K: "struct", Desc: "zero:netip.Prefix"}, SV{K: "ref", Known: true, Desc: "errParsePrefix(" + args[0].S + ")"}), true
+			}
+			return symTuple(SV{K: "struct", Desc: "prefix(" + args[0].S + ")"}, symNil()), true
+		case callee == "net/netip.ParseAddr" && len(args) == 1 && args[0].K == "str" && args[0].Known:
+			if _, err := netip.ParseAddr(args[0].S); err != nil {
+				return symTuple(SV{K: "struct", Desc: "zero:netip.Addr"}, SV{K: "ref", Known: true, Desc: "errParseAddr(" + args[0].S + ")"}), true
+			}
+			return symTuple(SV{K: "struct", Desc: "addr(" + args[0].S + ")"}, symNil()), true
+		case strings.HasSuffix(callee, "caddyhttp.CIDRExpressionToPrefix") && len(args) == 1 && args[0].K == "str" && args[0].Known:
+			// (caddy v2.8.4: a CIDR expression when it has a slash, otherwise a single address)
+			var err error
+			if strings.Contains(args[0].S, "/") {
+				_, err = netip.ParsePrefix(args[0].S)
+			} else {
+				_, err = netip.ParseAddr(args[0].S)
+			}
+			if err != nil {
+				return symTuple(SV{K: "struct", Desc: "zero:netip.Prefix"}, SV{K: "ref", Known: true, Desc: "errCIDRExpression(" + args[0].S + ")"}), true
+			}
+			return symTuple(SV{K: "struct", Desc: "prefix(" + args[0].S + ")"}, symNil()), true
 		}
 		if inner != nil {
 			return inner(callee, args, ev, st)
